@@ -533,10 +533,8 @@ func evalBinary(x *Binary, env *Env) (Value, Status) {
 		if !l.IsNum() || !r.IsNum() {
 			return Undef, Err // ordering non-numbers
 		}
+		// an ordering with NaN on either side is false (IEEE 754; both official backends agree)
 		a, b := l.Num(), r.Num()
-		if math.IsNaN(a) || math.IsNaN(b) {
-			return Undef, OOD
-		}
 		var res bool
 		switch x.Op {
 		case "<":
@@ -595,7 +593,7 @@ func evalBinary(x *Binary, env *Env) (Value, Status) {
 		case "*":
 			f = l.Num() * r.Num()
 		}
-		if math.IsNaN(f) || math.IsInf(f, 0) {
+		if (math.IsNaN(f) || math.IsInf(f, 0)) && !NonFinite {
 			return Undef, OOD
 		}
 		return Float(f), OK
@@ -606,11 +604,11 @@ func evalBinary(x *Binary, env *Env) (Value, Status) {
 		if !l.IsNum() || !r.IsNum() {
 			return Undef, OOD
 		}
-		if r.Num() == 0 {
+		if r.Num() == 0 && !NonFinite {
 			return Undef, OOD
 		}
 		f := l.Num() / r.Num()
-		if math.IsNaN(f) || math.IsInf(f, 0) {
+		if (math.IsNaN(f) || math.IsInf(f, 0)) && !NonFinite {
 			return Undef, OOD
 		}
 		return Float(f), OK
@@ -625,6 +623,12 @@ func evalBinary(x *Binary, env *Env) (Value, Status) {
 	}
 	panic("evalBinary: " + x.Op)
 }
+
+// NonFinite makes division by zero and overflowing float arithmetic yield the
+// IEEE 754 values (both official backends do) instead of leaving the domain.
+// Their text stays out of the domain (PrintVal), so only comparisons,
+// equality, truthiness and the operators built on them see them. Set by C01.
+var NonFinite bool
 
 func evalCall(x *Call, env *Env) (Value, Status) {
 	switch x.Fn {
@@ -657,6 +661,11 @@ func evalCall(x *Call, env *Env) (Value, Status) {
 			return Undef, st
 		}
 		args[i] = v
+	}
+	for _, a := range args {
+		if a.K == KFloat && (math.IsNaN(a.F) || math.IsInf(a.F, 0)) && x.Fn != "isNonnull" {
+			return Undef, OOD // functions of non-finite numbers are not modelled
+		}
 	}
 	num := func(i int) bool { return i < len(args) && args[i].IsNum() }
 	switch x.Fn {
